@@ -14,10 +14,14 @@ inserted knot; the result is accepted by the constructors; the domain is unchang
 
 Proved in Lean (Properties/C04.lean; evaluator-level corollaries in Properties/Bridge.lean `Bridge_C04_*`):
 open directions completely (single values, sequences, objects of any pardim fibre-wise, curves,
-`refine`, `geometric_refine` without reverse); periodic directions under the guard n >= p+k and for
-any real value (the domain end included): valid repaired knot vector AND unchanged periodic spline
-(`C04_periodic_partial`, `C04_periodic_boehm`, sequences and objects).  For n < p+k `insert_knot` refines
-the R-fold cover of the basis; that branch is validated by the correspondence run and the oracle.
+`refine`, `geometric_refine` without reverse); periodic directions for EVERY valid periodic basis and
+any real value (the domain end included): valid repaired knot vector, periodic knot set = old plus the
+inserted values, AND unchanged periodic spline with all derivatives (`C04_periodic`,
+`C04_periodic_sequence`, `C04_periodic_object`; the two branches of `insert_knot` separately:
+`C04_periodic_partial` for n >= p+k — the direct algorithm — and `C04_periodic_small` for n < p+k, where
+`insert_knot` refines the R-fold cover of the basis).  The translated source of `insert_knot` equals the
+hand model in both branches (`PyBasis_insert_knot_eq`, `PyBasis_insert_knot_eq_cover` with
+`C04_source_insert_knot_small`).
 """
 from fractions import Fraction as F
 from math import atan, tan
@@ -32,7 +36,9 @@ ID = 'C04'
 PYOBJECT_METHODS = ['insert_knot']   # splineobject.py methods re-translated and proved equal to the hand model each run
 PYBASIS_METHODS = ['insert_knot']   # basis.py methods re-translated and proved equal to the hand model each run
 # theorems of this property stated for the object evaluator `Obj.evaluate` (bridge through C02)
-EXTRA_THEOREMS = [('Splipy.Properties.Bridge', 'Splipy/Properties/Bridge.lean', 'Bridge_C04_')]
+EXTRA_THEOREMS = [('Splipy.Properties.Bridge', 'Splipy/Properties/Bridge.lean', 'Bridge_C04_'),
+                  # the translated insert_knot = hand model in the cover branch, guards discharged for valid bases
+                  ('Splipy.Lemmas.C04PyCover', 'Splipy/Lemmas/C04PyCover.lean', 'C04_source_')]
 RTOL = 1e-9
 ATOL = 1e-11
 KNOT_RTOL = 1e-12
@@ -60,14 +66,15 @@ REQUIRED_TAGS = ['kind=basis', 'kind=history', 'kind=refine', 'kind=geometric', 
 
 TOLF = 1e-10
 ASSUMPTIONS = [
-    'periodic theorems carry the guard n >= p+k (C04_periodic*_partial; x = end is included since the end clamp); for n < p+k '
-    'insert_knot refines the R-fold cover of the basis (Basis.insertKnot, cover branch): covered by the correspondence run and '
-    'the oracle (every (p,k), minimum sizes), not by a theorem yet',
+    'periodic insertion is proved for every valid periodic basis and every real value (C04_periodic, C04_periodic_sequence, '
+    'C04_periodic_object; cover branch n < p+k: C04_periodic_small; x = end included); the cover-branch theorems model the '
+    'constructor call for the cover as accepting its argument (hypothesis hinit of C04_source_insert_knot_small)',
     'center_refine / edge_refine: the tan/atan placement values are computed by the harness with the library formula and passed to '
     'the model (no theorem that they lie inside the domain; the oracle checks every case); geometric_refine(reverse=True) composes '
     'C04_graded with Obj.reverse (C06)',
-    'multi-direction histories are covered fibre-wise per direction (C04_object, C04_periodic_object_partial) and by the '
-    'evaluator-level Bridge_C04_* theorems for non-periodic directions; no single theorem quantifies over a mixed-direction history',
+    'multi-direction histories are covered fibre-wise per direction (C04_object, C04_periodic_object) and by the '
+    'evaluator-level Bridge_C04_* theorems for non-periodic directions (periodic directions at evaluator level: curves only, '
+    'C04_periodic_evaluate_curve_partial); no single theorem quantifies over a mixed-direction history',
     'inputs with resulting knot multiplicity above the order are outside the property (the real code yields NaN) and are not generated',
 ]
 
